@@ -27,6 +27,8 @@ ASSUMPTIONS = [
     "more than 400k (report) / 20k (dependency analysis) Python calls inside ak/ghist.py for these tiny inputs is a divergence (normal runs need a few thousand)",
     "the component has a single branch; the set of report-related component builds is read from the component's own report (its placement rules are C06's property); with merge commits in the parent (part included_at_parent_merges) 'the first build' is read as: every build of the branch that ships the component build while none of its ancestor builds does",
     "pins always name an existing component build tag; pinned versions never decrease along a path",
+    "builds are detected by build tags (the default detector). RepoBuildsBySavedBuildNumDetector is documented as a best guess; on the unchanged tree it labels an unbuilt head with the last saved version and records it as shipped by the parent build that pins that version, so C07 is not claimed for it (case['comp_detect'] = 'saved' exists for experiments, it is never generated)",
+    "a parent build commit carries one build tag: which of several numbers names a multiply tagged parent build is not part of the statement",
     "at most one build tag per commit; commit times: component first, parent later (inside the 1-day / 30-day windows)",
     "included_at entries are compared as multisets of (parent repo, parent branch, shown build number)",
 ]
@@ -34,10 +36,17 @@ ASSUMPTIONS = [
 
 def comp_spec(case):
     commits = []
+    ver = []
     for i, c in enumerate(case["comp"]["commits"]):
         msg = ("%s in component %d" % (case["search"], i)) if c["match"] else ("component change %d" % i)
-        commits.append({"parents": c.get("parents", [i - 1] if i else []), "msg": msg, "ts": 100 + i,
-                        "files": {"VERSION": "1.0"}})
+        ps = c.get("parents", [i - 1] if i else [])
+        # the version saved in the sources: bumped by the build commits, otherwise what the parents have (the highest one
+        # at a merge); only read when the component detects its builds by saved version
+        ver.append(c["tag"] if c.get("tag") is not None else max([ver[p] for p in ps], default=0))
+        commits.append({"parents": ps, "msg": msg, "ts": 100 + i,
+                        "files": {"VERSION": "1.0.%d" % ver[i] if case.get("comp_detect") == "saved" else "1.0"}})
+    if case.get("comp_detect") == "saved":
+        return {"name": "comp", "commits": commits, "branches": {"release/1.0": len(commits) - 1}, "tags": []}
     tags = [["build_%d_release_1_0_success" % c["tag"], i] for i, c in enumerate(case["comp"]["commits"])
             if c.get("tag") is not None]
     tags += [["build_%d_release_1_0_success" % c["tag2"], i] for i, c in enumerate(case["comp"]["commits"])
@@ -175,6 +184,13 @@ def evaluate(case):
     crepo = fakegit.FakeRepo(comp_spec(case))
     prepo = fakegit.FakeRepo(parent_spec(case))
     CompCls = fakegit.make_project_repo_class(G, name="CompRepo")
+    if case.get("comp_detect") == "saved":
+        # the other way a repository may tell its builds: a commit is a build when the version saved in its sources
+        # differs from that of all its parents
+        class CompCls(CompCls):
+            def make_builds_detector(self):
+                return G.RepoBuildsBySavedBuildNumDetector(self)
+        classes.add("component_builds_detected_by_saved_version")
     locs = {"comp": "DEPENDS"}
     if case.get("comp2"):
         locs["libb"] = "DEPENDS"
@@ -399,10 +415,14 @@ def st_case(draw, merges=False):
     if all(c["tag"] is None for c in ccommits):
         ccommits[draw(st.integers(0, len(ccommits) - 1))]["tag"] = 0
     nums = sorted(draw(st.lists(st.integers(1, 500), min_size=len(ccommits), max_size=len(ccommits), unique=True)))
+    comp_detect = "tags"      # ("saved": see ASSUMPTIONS - kept in the case format for experiments only)
+    for c in ccommits:
+        if len(c["parents"]) > 1 and draw(st.booleans()):
+            c["parents"] = c["parents"][::-1]          # either line may be the first parent of a merge
     tagged = [c for c in ccommits if c["tag"] is not None]
     for c, n in zip(tagged, nums):
         c["tag"] = 2 * n          # build numbers increase with the (topological) commit order
-        if draw(st.integers(0, 4)) == 0:
+        if comp_detect == "tags" and draw(st.integers(0, 4)) == 0:
             c["tag2"] = 2 * n + 1     # the same commit was built twice
     pins = sorted([c["tag"] for c in tagged] + [c["tag2"] for c in tagged if c.get("tag2") is not None])
     names = draw(st.lists(st.sampled_from(["release/1.0", "release/2.0", "release/10.0", "release/2.10", "master", "release/0.9", "release/0.0"]),
@@ -463,7 +483,7 @@ def st_case(draw, merges=False):
         branches[b] = cur
     for c in pcommits:
         c.pop("pin_i")
-    case = {"search": search, "comp": {"commits": ccommits}, "parent": {"commits": pcommits, "branches": branches},
+    case = {"search": search, "comp_detect": comp_detect, "comp": {"commits": ccommits}, "parent": {"commits": pcommits, "branches": branches},
             "order_rot": draw(st.integers(0, 2)), "render": draw(st.integers(0, 4)) == 0,
             "prior": draw(st.sampled_from([0, 0, 0, 1, 1, 2, 3]))}
     if draw(st.integers(0, 3)) == 0:
